@@ -993,6 +993,23 @@ func (env *specEnv) call(x *Expr) (Val, error) {
 			return Val{}, fmt.Errorf("samearr takes two slices")
 		}
 		return boolVal(and(eq(vs[0].T[0], vs[1].T[0]), eq(vs[0].T[1], vs[1].T[1]))), nil
+	case "nilptr":
+		// nilptr(x): x is a nil pointer, or an interface value holding a nil pointer (a "typed nil") or nothing
+		vs, err := evalArgs()
+		if err != nil {
+			return Val{}, err
+		}
+		if len(vs) != 1 {
+			return Val{}, fmt.Errorf("nilptr takes one argument")
+		}
+		f := e.flat(vs[0])
+		switch len(f) {
+		case 1:
+			return boolVal(eq(f[0], intLit(0))), nil
+		case 2:
+			return boolVal(eq(f[1], intLit(0))), nil
+		}
+		return Val{}, fmt.Errorf("nilptr needs a pointer or an interface value")
 	case "sharearr":
 		// sharearr(s1, s2): the two slices have the same (non-nil) backing array
 		vs, err := evalArgs()
